@@ -1,4 +1,5 @@
 import D3.Model.GjkJolt
+import D3.Model.SimplexGood
 import D3.Driver.Codec
 import D3.Driver.VecCodec
 
@@ -143,6 +144,14 @@ def hullFn : P String := do
   | .error e => pure (rErrS e)
   | .ok r => pure s!"ok {rResult r}"
 
+/-- run-time evidence for the hypothesis `VisitedGood JoltGood` of the `C01.jolt_*` theorems: `Y n` ↦
+`joltGoodB Y n` (the executable form of `JoltGood`, `D3.Gjk.joltGoodB_iff`); meant to be run at `Rat`
+on the simplices a recorded run hands to the solver -/
+def goodFn : P String := do
+  let Y : A4 (V3 α) ← pA4
+  let n ← pNat
+  pure (if joltGoodB Y n then "ok 1" else "ok 0")
+
 def dispatch (fn : String) : Option (P String) :=
   match fn with
   | "C01.step" => some (stepFn (α := α))
@@ -152,6 +161,7 @@ def dispatch (fn : String) : Option (P String) :=
   | "C01.upd" => some (updFn (α := α))
   | "C01.run" => some (runFn (α := α))
   | "C01.hull" => some (hullFn (α := α))
+  | "C01.good" => some (goodFn (α := α))
   | _ => none
 
 end D3.Drv01
